@@ -676,6 +676,14 @@ func (a *Authenticator) handleSessionResumption(ctx context.Context, sessionID s
 			}
 		}
 	}
+	// A session is resumed by proving possession of its key: from the reply onwards
+	// the connection is protected by that key. A cached session that carries no key
+	// (negotiated without a common cipher) offers no such proof -- anyone who learns
+	// the session id could ride it -- so it is never resumed; the client falls back
+	// to a full handshake exactly as for an unknown id.
+	if ok && (entry.KeyInfo() == nil || len(entry.KeyInfo().Data) == 0) {
+		ok = false
+	}
 	if !ok {
 		slog.Info(fmt.Sprintf("🔐 SERVER: Session %s not found or expired", redactSessionID(sessionID)), "destination", "cedar")
 
@@ -1313,6 +1321,12 @@ func (a *Authenticator) storeSession(negotiation *SecurityNegotiation, sessionID
 		}
 	}
 
+	// A session without a key cannot be resumed (resumption is proof of possession
+	// of the key), so there is nothing to cache.
+	if keyInfo == nil {
+		return
+	}
+
 	// Create security policy ad
 	policy := classad.New()
 	_ = policy.Set("Authentication", string(negotiation.ServerConfig.Authentication))
@@ -1367,6 +1381,12 @@ func (a *Authenticator) storeClientSession(negotiation *SecurityNegotiation, dur
 			Data:     negotiation.GetSharedSecret(),
 			Protocol: string(negotiation.NegotiatedCrypto),
 		}
+	}
+
+	// A session without a key cannot be resumed (the server refuses it), so caching
+	// it would only make the next connection attempt a doomed resumption.
+	if keyInfo == nil {
+		return
 	}
 
 	// Create security policy ad
